@@ -15,8 +15,9 @@ func init() {
 			"UNI1: (Value).Type and (Value).ToRawGoValue touch, inside each TypeID arm, only that arm's payload — so a struct value reports its own fields' types ('every value matches the type it reports'). " +
 			"NN: NonNullable keeps exactly the alternatives whose TypeID is not Null (classes Null / other per alternative) and unwraps a single survivor. " +
 			"FOLD: the two union folds of Type.Is are explored as a product with their reference automata: a union receiver Is iff every alternative Is, Maybe iff some alternative Is or Maybe, else Isnt; a union argument yields the maximum over its alternatives; Any accepts everything. " +
+			"REFL: the inductive step of reflexivity — Is interpreted with both operands the same symbolic type, recursive calls on identical components answered by the induction hypothesis — returns Is for every TypeID, lists of known and unknown element type included. SUM: TypeSum returns the larger operand when one subsumes the other (idempotence given reflexivity), threads its accumulator through every alternative in the union+union case, reduces single+union to union+single, merges or appends-and-sorts in union+single, and builds a sorted two-element union otherwise. " +
 			"LOOPREF: TypeIntersection/TypeSum keep no pointer to a shared loop variable.",
-		NotDecided: []string{"reflexivity of Is, the upper-bound/commutativity/idempotence laws of TypeSum and the containment law of TypeIntersection: inductive facts about recursive functions (theorem proving, not code shape)"},
+		NotDecided: []string{"the laws themselves as universally quantified statements: reflexivity is reduced to its inductive step (REFL) plus the union folds (FOLD); the upper-bound/commutativity laws of TypeSum for structs, lists and tuples and the containment law of TypeIntersection are not decided (inductive facts about recursive functions — theorem proving)"},
 	})
 }
 
@@ -34,6 +35,10 @@ func runC10(c *core.Ctx) {
 	}
 	checkNonNullable(c)
 	checkIsFolds(c)
+	c.Rule("REFL", "inductive step of reflexivity of Is, per TypeID")
+	c.Rule("SUM", "case structure of TypeSum: subsumption, accumulator threading, normal form")
+	checkReflexiveStep(c)
+	checkTypeSumShape(c)
 	checkLoopRefs(c, "LOOPREF", []string{"octosql"})
 	_ = p
 }
@@ -257,4 +262,285 @@ func checkIsFolds(c *core.Ctx) {
 		}
 		c.Decide(bad == "", "FOLD", ckey, fn.Decl.Pos(), len(outs), "agrees with the reference fold on every explored alternative sequence", bad)
 	}
+}
+
+// checkReflexiveStep (REFL): the inductive step of `t.Is(t) == Is`. Type.Is is interpreted with
+// both operands bound to the same symbolic type T, for every TypeID of T (lists with known and
+// unknown element type separately); recursive calls on identical components are answered with the
+// induction hypothesis (Is), an alternative of a union is taken to fit that union (which rule FOLD
+// establishes for the argument-side fold). Every path must return Is.
+func checkReflexiveStep(c *core.Ctx) {
+	p := c.Prog
+	ids := typeIDs(p)
+	fn := p.Func("octosql", "Type.Is")
+	if fn == nil {
+		c.Unknown("REFL", "octosql.Type.Is", 0, "anchor not found")
+		return
+	}
+	is := lookupConst(p, "octosql", "TypeRelationIs")
+	norm := func(s string) string { return strings.TrimPrefix(s, "*") }
+	type variant struct {
+		tid     string
+		elemNil *bool
+	}
+	var vs []variant
+	for _, name := range sortedKeys(ids) {
+		if name == "TypeIDList" {
+			t, f := true, false
+			vs = append(vs, variant{name, &t}, variant{name, &f})
+			continue
+		}
+		vs = append(vs, variant{name, nil})
+	}
+	for _, v := range vs {
+		v := v
+		in := newInterp(p, fn)
+		in.Hooks.Field = func(st *absint.State, base absint.Val, sel string) (absint.Val, bool) {
+			if sel == "TypeID" && base.Canon() == "T" {
+				return absint.Int(ids[v.tid]), true
+			}
+			return nil, false
+		}
+		in.Hooks.Cond = func(st *absint.State, atom string) (bool, bool) {
+			if v.elemNil != nil && (atom == "(T.List.Element == nil)" || atom == "(nil == T.List.Element)") {
+				return *v.elemNil, true
+			}
+			return false, false
+		}
+		in.Hooks.Loop = func(st *absint.State, loop ast.Stmt) *absint.LoopSpec {
+			return &absint.LoopSpec{Cases: []string{"component"}, MaxIter: 2, RefStep: func(ref, cs string) string { return ref }}
+		}
+		derefNil := false
+		in.Hooks.Call = func(st *absint.State, call *ast.CallExpr, callee string, recv absint.Val, args []absint.Val) (absint.Val, bool) {
+			if callee == "octosql.Type.Is" && len(args) == 1 {
+				a, b := norm(recv.Canon()), norm(args[0].Canon())
+				if v.elemNil != nil && *v.elemNil && strings.Contains(a+b, "List.Element") {
+					derefNil = true
+				}
+				if a == b || strings.HasPrefix(a, b+".Union.Alternatives[") {
+					return is, true
+				}
+				return absint.S("rel(" + a + "," + b + ")"), true
+			}
+			return nil, false
+		}
+		outs, err := runDecl(in, fn, func(st *absint.State, bind func(string, absint.Val)) {
+			bind("t", absint.S("T"))
+			bind("other", absint.S("T"))
+		}, "")
+		key := "octosql.Type.Is/reflexive step/" + v.tid
+		if v.elemNil != nil {
+			key += fmt.Sprintf("(element type unknown=%v)", *v.elemNil)
+		}
+		if err != nil {
+			c.Unknown("REFL", key, fn.Decl.Pos(), err.Error())
+			continue
+		}
+		bad := ""
+		if derefNil {
+			bad = "the unknown (nil) element type of a list is dereferenced"
+		}
+		n := 0
+		for _, o := range outs {
+			if o.Kind != "return" || len(o.Values) != 1 {
+				if o.Kind == "panic" {
+					bad = "panics: " + o.String()
+				}
+				continue
+			}
+			n++
+			if o.Values[0].Canon() != is.Canon() {
+				bad = fmt.Sprintf("with both operands the same %s type (components reflexive by induction hypothesis) Is returns %s instead of Is: a type is not a subtype of itself", strings.TrimPrefix(v.tid, "TypeID"), o.Show(o.Values[0]))
+			}
+		}
+		c.Decide(bad == "" && n > 0, "REFL", key, fn.Decl.Pos(), len(outs), "t.Is(t) = Is given reflexive components", bad)
+	}
+	c.Floor("REFL", 12, "one inductive step per TypeID")
+}
+
+// checkTypeSumShape (SUM): the case structure of TypeSum that its laws rest on.
+func checkTypeSumShape(c *core.Ctx) {
+	p := c.Prog
+	ids := typeIDs(p)
+	fn := p.Func("octosql", "TypeSum")
+	if fn == nil {
+		c.Unknown("SUM", "octosql.TypeSum", 0, "anchor not found")
+		return
+	}
+	isC := lookupConst(p, "octosql", "TypeRelationIs")
+	isnt := lookupConst(p, "octosql", "TypeRelationIsnt")
+	run := func(tid1, tid2 string, rel12, rel21 absint.Val, loop *absint.LoopSpec, iterTID func(cls string) (absint.Val, bool)) ([]*absint.Outcome, error) {
+		in := newInterp(p, fn)
+		in.MaxPaths = 6000
+		in.Hooks.Field = func(st *absint.State, base absint.Val, sel string) (absint.Val, bool) {
+			if sel != "TypeID" {
+				return nil, false
+			}
+			switch base.Canon() {
+			case "t1":
+				return absint.Int(ids[tid1]), true
+			case "t2":
+				return absint.Int(ids[tid2]), true
+			}
+			if iterTID != nil && st.IterNow != "" {
+				return iterTID(st.IterNow)
+			}
+			return nil, false
+		}
+		in.Hooks.Loop = func(st *absint.State, l ast.Stmt) *absint.LoopSpec { return loop }
+		in.Hooks.Call = func(st *absint.State, call *ast.CallExpr, callee string, recv absint.Val, args []absint.Val) (absint.Val, bool) {
+			switch callee {
+			case "octosql.Type.Is":
+				if recv.Canon() == "t1" && args[0].Canon() == "t2" {
+					return rel12, true
+				}
+				if recv.Canon() == "t2" && args[0].Canon() == "t1" {
+					return rel21, true
+				}
+			case "octosql.TypeSum":
+				return absint.S("TS(" + showForSum(st, args[0]) + "," + showForSum(st, args[1]) + ")"), true
+			}
+			return nil, false
+		}
+		return runDecl(in, fn, nil, "")
+	}
+	// S1: subsumption
+	for _, cs := range []struct {
+		r12, r21 absint.Val
+		want, why string
+	}{{isC, isnt, "t2", "t1 ⊆ t2 ⇒ the sum is t2"}, {isnt, isC, "t1", "t2 ⊆ t1 ⇒ the sum is t1"}, {isC, isC, "t2", "equal types ⇒ the sum is that type (idempotence)"}} {
+		outs, err := run("TypeIDInt", "TypeIDString", cs.r12, cs.r21, nil, nil)
+		key := "octosql.TypeSum/subsumption/" + cs.want + " " + cs.r12.Canon() + cs.r21.Canon()
+		bad := ""
+		if err != nil {
+			bad = err.Error()
+		}
+		for _, o := range outs {
+			if o.Kind != "return" || (o.Values[0].Canon() != cs.want && !(cs.r12.Canon() == isC.Canon() && cs.r21.Canon() == isC.Canon() && o.Values[0].Canon() == "t1")) {
+				bad = cs.why + "; returns " + o.Show(o.Values[0])
+			}
+		}
+		c.Decide(bad == "" && len(outs) > 0, "SUM", key, fn.Decl.Pos(), len(outs), cs.why, bad)
+	}
+	// S2: union × union threads the accumulator through every alternative of t2
+	{
+		outs, err := run("TypeIDUnion", "TypeIDUnion", isnt, isnt, &absint.LoopSpec{Cases: []string{"alt"}, MaxIter: 2, RefStep: func(ref, cs string) string { return ref }}, nil)
+		key := "octosql.TypeSum/union+union"
+		bad := ""
+		if err != nil {
+			bad = err.Error()
+		}
+		two := 0
+		for _, o := range outs {
+			if o.Kind != "return" || len(o.Trace) != 2 {
+				continue
+			}
+			two++
+			r := o.Values[0].Canon()
+			if !strings.HasPrefix(r, "TS(TS(") || !strings.Contains(r, "t1.Union.Alternatives") || strings.Count(r, "t2.Union.Alternatives[") != 2 {
+				bad = "after two alternatives of t2 the sum must be TypeSum(TypeSum(<t1's alternatives>, a1), a2); it is " + r + " — alternatives are lost and the result is not an upper bound of t2"
+			}
+		}
+		c.Decide(bad == "" && two > 0, "SUM", key, fn.Decl.Pos(), len(outs), "accumulator threaded through all alternatives", bad)
+	}
+	// S3: only t2 a union ⇒ TypeSum(t2, t1)
+	{
+		outs, err := run("TypeIDInt", "TypeIDUnion", isnt, isnt, nil, nil)
+		bad := ""
+		if err != nil {
+			bad = err.Error()
+		}
+		for _, o := range outs {
+			if o.Kind != "return" || o.Values[0].Canon() != "TS(t2,t1)" {
+				bad = "with only the second operand a union the sum must be TypeSum(t2, t1) (commutativity); returns " + o.Show(o.Values[0])
+			}
+		}
+		c.Decide(bad == "" && len(outs) > 0, "SUM", "octosql.TypeSum/single+union", fn.Decl.Pos(), len(outs), "reduces to union+single", bad)
+	}
+	// S4: union + single keeps t2
+	{
+		outs, err := run("TypeIDUnion", "TypeIDString", isnt, isnt, &absint.LoopSpec{Cases: []string{"sameID", "otherID"}, MaxIter: 2, RefStep: func(ref, cs string) string {
+			if cs == "sameID" {
+				return "merged"
+			}
+			return ref
+		}}, func(cls string) (absint.Val, bool) {
+			if cls == "sameID" {
+				return absint.Int(ids["TypeIDString"]), true
+			}
+			return absint.Int(ids["TypeIDInt"]), true
+		})
+		bad := ""
+		if err != nil {
+			bad = err.Error()
+		}
+		n := 0
+		for _, o := range outs {
+			if o.Kind != "return" {
+				continue
+			}
+			n++
+			ev := ""
+			for _, e := range o.Events {
+				ev += e.String() + ";"
+			}
+			alts := fieldAt(o, o.Values[0], "Union.Alternatives")
+			as := ""
+			if alts != nil {
+				as = alts.Canon()
+			}
+			if strings.Contains(o.Ref, "merged") {
+				if !strings.Contains(ev, "TS(") || !strings.Contains(ev, ",t2)") {
+					bad = "an alternative with t2's TypeID must be merged with t2 (TypeSum(alternative, t2)); events: " + ev
+				}
+			} else if strings.HasPrefix(o.Ref, "exit:") {
+				if !strings.Contains(as, "t2") {
+					bad = "t2 must be appended to the alternatives when none has its TypeID; alternatives: " + as
+				}
+				if !strings.Contains(ev, "sort.Slice") {
+					bad = "the alternatives must be re-sorted by TypeID after appending (normal form: NULL first)"
+				}
+			}
+		}
+		c.Decide(bad == "" && n > 0, "SUM", "octosql.TypeSum/union+single", fn.Decl.Pos(), len(outs), "t2 merged into the alternative of its TypeID or appended and sorted", bad)
+	}
+	// S5: two different non-union types ⇒ sorted two-element union
+	{
+		outs, err := run("TypeIDInt", "TypeIDString", isnt, isnt, nil, nil)
+		bad := ""
+		if err != nil {
+			bad = err.Error()
+		}
+		for _, o := range outs {
+			if o.Kind != "return" {
+				continue
+			}
+			alts := fieldAt(o, o.Values[0], "Union.Alternatives")
+			tid := fieldAt(o, o.Values[0], "TypeID")
+			sorted := false
+			for _, e := range o.Events {
+				if strings.Contains(e.Name, "sort.Slice") {
+					sorted = true
+				}
+			}
+			if alts == nil || alts.Canon() != "[t1,t2]" || tid == nil || tid.Canon() != fmt.Sprint(ids["TypeIDUnion"]) || !sorted {
+				bad = "two unrelated non-union types must sum to the union {t1, t2} sorted by TypeID; returns " + o.Show(o.Values[0])
+			}
+		}
+		c.Decide(bad == "" && len(outs) > 0, "SUM", "octosql.TypeSum/single+single", fn.Decl.Pos(), len(outs), "union {t1,t2} in normal form", bad)
+	}
+}
+
+func showForSum(st *absint.State, v absint.Val) string {
+	if r, ok := v.(absint.Ref); ok {
+		if ob := st.Obj(r); ob != nil {
+			if u, ok := ob.Fields["Union"].(absint.Ref); ok {
+				if uo := st.Obj(u); uo != nil && uo.Fields["Alternatives"] != nil {
+					return "U{" + uo.Fields["Alternatives"].Canon() + "}"
+				}
+			}
+			return "obj"
+		}
+	}
+	return v.Canon()
 }
